@@ -1,0 +1,61 @@
+//go:build verif
+// +build verif
+
+// Contracts for package service, read by /verif's govc (contract-based deductive verification).
+// This file contains comments only; it is compiled only under the build tag "verif" and adds no code.
+
+package service
+
+//@ import "net/http"
+//@ import "net/url"
+//@ import "strings"
+//@ import "github.com/cnotch/xlog"
+//@ import "github.com/cnotch/ipchub/provider/auth"
+//@ import "github.com/cnotch/ipchub/service/hls"
+//@ import "github.com/cnotch/ipchub/service/flv"
+//@ import "github.com/cnotch/ipchub/network/websocket"
+
+// ---- C11: the HTTP / WebSocket stream entry points check the pull right of the stream they deliver ------------------
+// what extractStreamPathAndExt makes of a request path (deterministic: named by two functions of the argument)
+//@ spec func exPath(rp string) string = uninterpreted
+//@ spec func exExt(rp string) string = uninterpreted
+// what strings.LastIndex(s, "/") returns
+//@ spec func lastSlashIdx(s string) int = uninterpreted
+// the stream whose media a /streams/ request delivers: <stream>.flv, <stream>.m3u8, and <stream>/<seq>.ts for an HLS
+// segment (service/hls.GetTS looks the stream up under everything before the last '/')
+//@ spec func deliveredStream(rp string) string = iteStr(exExt(rp) == ".ts" && lastSlashIdx(exPath(rp)) >= 0, exPath(rp)[:lastSlashIdx(exPath(rp))], exPath(rp))
+// the configuration guide's "user u may <right> path" (meaning of patterns: C16), the user table, the user a token named
+//@ spec func permits(u *auth.User, path string, right auth.AccessRight) bool = uninterpreted
+//@ spec func userNamed(name string) *auth.User = uninterpreted
+//@ spec func hdr(h http.Header, key string) string = uninterpreted
+
+//@ func extractStreamPathAndExt(requestPath string) (streamPath string, ext string)
+//@   trusted
+//@   modifies
+//@   ensures sameStr(streamPath, exPath(requestPath)) && sameStr(ext, exExt(requestPath))
+//@ extern func strings.LastIndex(s string, substr string) (i int)
+//@   modifies
+//@   ensures -1 <= i && i <= len(s) - len(substr)
+//@   ensures substr == "/" ==> i == lastSlashIdx(s)
+//@ extern func (h http.Header) Get(key string) (v string)
+//@   modifies
+//@   ensures sameStr(v, hdr(h, key))
+//@ extern func auth.Get(userName string) (u *auth.User)
+//@   modifies
+//@   ensures u == userNamed(userName)
+//@ extern func (u *auth.User) ValidatePermission(path string, right auth.AccessRight) (ok bool)
+//@   requires u != nil
+//@   modifies
+//@   ensures ok == permits(u, path, right)
+//@ extern func http.Error(w http.ResponseWriter, error string, code int) ()
+//@   modifies misc(w)
+//@ extern func http.StatusText(code int) (s string)
+//@   modifies
+
+// a request passes only if the user the token named holds the pull right for the stream the request delivers
+//@ func permissionInterceptor(w http.ResponseWriter, r *http.Request) (ok bool)
+//@   requires r != nil && r.URL != nil && r.Header != nil
+//@   modifies misc(w)
+//@   local streamPath string
+//@   assert[call:ValidatePermission] streamPath == deliveredStream(r.URL.Path)
+//@   ensures ok ==> userNamed(hdr(r.Header, usernameHeaderKey)) != nil
